@@ -314,7 +314,192 @@ def run_call(c):
     return out
 
 
-RUNNERS = {"map": run_map, "call": run_call, "scs": run_scs, "scs-mdl": run_scs_mdl, "argmax": run_argmax, "segargmax": run_segargmax, "reduce": run_reduce}
+# ----------------------------------------------------------------------------- C15
+def run_mapcoord(c):
+    import jax.numpy as jnp
+    import numpy as np
+
+    from lcm.ndimage import map_coordinates
+
+    arr = jnp.asarray(np.array([_fr(x) for x in c["arr"]], dtype=np.float32).reshape(tuple(c["shape"])))
+    pts = np.array([[_fr(x) for x in p] for p in c["points"]], dtype=np.float32)      # (B, rank)
+    out = dict(c)
+    if c.get("batched", True):
+        coords = [jnp.asarray(pts[:, k]) for k in range(pts.shape[1])]
+        res = np.asarray(map_coordinates(arr, coords)).ravel()
+    else:
+        res = np.array([float(map_coordinates(arr, [jnp.asarray(x) for x in p])) for p in pts])
+    out["obs"] = [MDL.enc(x, quant_den=c.get("quant", 1024)) for x in res]
+    return out
+
+
+def run_gridcoord(c):
+    import jax.numpy as jnp
+    import numpy as np
+
+    from lcm.ndimage import map_coordinates
+
+    g = MDL.build_grid(c["grid"])
+    nodes = g.to_jax()
+    xs = jnp.asarray(np.array([_fr(x) for x in c["xs"]], dtype=np.float32))
+    coords = np.asarray(g.get_coordinate(xs))
+    node_coords = np.asarray(g.get_coordinate(nodes))
+    rt = np.asarray(map_coordinates(nodes, [jnp.asarray(coords)]))
+    qd = c.get("quant", 4096)
+    out = dict(c)
+    out["obs"] = {"coords": [MDL.enc(x, quant_den=qd) for x in coords], "node_coords": [MDL.enc(x, quant_den=qd) for x in node_coords],
+                  "roundtrip": [MDL.enc(x, quant_den=qd) for x in rt]}
+    return out
+
+
+# ----------------------------------------------------------------------------- C14
+def run_funcrep(c):
+    import jax.numpy as jnp
+    import numpy as np
+
+    from lcm import DiscreteGrid
+    from lcm.function_representation import get_function_representation
+    from lcm.interfaces import IndexerInfo, SpaceInfo
+
+    sn = [f"s{i}" for i in range(len(c["sparse"]))]
+    dn = [f"d{i}" for i in range(len(c["dense"]))]
+    cn = [f"x{i}" for i in range(len(c["cont"]))]
+    lookup = {n: DiscreteGrid(MDL.category_class(k)) for n, k in zip(sn + dn, list(c["sparse"]) + list(c["dense"]), strict=True)}
+    interp = {n: MDL.build_grid(g) for n, g in zip(cn, c["cont"], strict=True)}
+    axis_names = (["state_index"] if sn else []) + dn + cn
+    infos = [IndexerInfo(axis_names=sn, name="state_indexer", out_name="state_index")] if sn else []
+    si = SpaceInfo(axis_names=axis_names, lookup_info=lookup, interpolation_info=interp, indexer_infos=infos)
+    prefix = c.get("prefix", "")
+    f = get_function_representation(si, "vf_arr", input_prefix=prefix)
+    shape = ([c["nadm"]] if sn else []) + list(c["dense"]) + [g["n"] for g in c["cont"]]
+    arr = jnp.asarray(np.array([_fr(x) for x in c["arr"]], dtype=np.float32).reshape(tuple(shape)))
+    kw = {"vf_arr": arr}
+    if sn:
+        kw["state_indexer"] = jnp.asarray(np.array(c["indexer"], dtype=np.int32).reshape(tuple(c["sparse"])))
+    res = []
+    for pt in c["points"]:
+        a = dict(kw)
+        for n, v in zip(sn, pt["sparse"], strict=True):
+            a[prefix + n] = v
+        for n, v in zip(dn, pt["dense"], strict=True):
+            a[prefix + n] = v
+        for n, v in zip(cn, pt["cont"], strict=True):
+            a[prefix + n] = jnp.float32(_fr(v))
+        res.append(float(f(**a)))
+    out = dict(c)
+    out["obs"] = [MDL.enc(x) for x in res]
+    return out
+
+
+# ----------------------------------------------------------------------------- C16
+def _value_object(cls):
+    import numpy as np
+
+    return {"neg": -2.5, "zero": 0, "pos": 1.5, "posint": 3, "four": 4.0, "big": 100000.0, "small": 0.001,
+            "nan": float("nan"), "inf": float("inf"), "ninf": float("-inf"), "true": True,
+            "npf64": np.float64(2.0), "npf32": np.float32(2.0), "npi64": np.int64(2),
+            "str": "1", "none": None, "list": [1.0]}[cls]
+
+
+def _count_object(cls):
+    return {"n0": 0, "n1": 1, "n2": 2, "n3": 3, "n5": 5, "nneg": -1, "nfloat": 3.0, "ntrue": True, "nstr": "3", "nnone": None}[cls]
+
+
+def _grid_obs(kind, start, stop, n):
+    """Construct the grid and return normalised observations of its array form (see Grids!GridLawsClause)."""
+    import math
+
+    import numpy as np
+
+    from lcm import LinspaceGrid, LogspaceGrid
+    from lcm.exceptions import GridInitializationError
+
+    empty = {"len": 0, "finite": True, "first": [0, 1], "last": [0, 1], "increasing": True, "steps": [], "cls": "", "msg": ""}
+    try:
+        g = (LinspaceGrid if kind == "lin" else LogspaceGrid)(start=start, stop=stop, n_points=n)
+        arr = np.asarray(g.to_jax(), dtype=np.float64)
+    except GridInitializationError:
+        return {**empty, "outcome": "reject"}
+    except Exception as e:  # noqa: BLE001
+        return {**empty, "outcome": "other-error", "cls": type(e).__name__, "msg": str(e)[:150]}
+    o = dict(empty, outcome="ok", len=int(arr.shape[0]) if arr.ndim == 1 else -1)
+    o["finite"] = bool(np.isfinite(arr).all())
+    try:
+        s, e_ = float(start), float(stop)
+        npts = int(n)
+        if o["finite"] and arr.ndim == 1 and len(arr) >= 1 and math.isfinite(s) and math.isfinite(e_):
+            qd = 1 << 14
+            if kind == "lin":
+                scale = max(abs(s), abs(e_), abs(e_ - s), 1e-300)
+                o["first"] = MDL.enc((arr[0] - s) / scale, quant_den=qd)
+                o["last"] = MDL.enc((arr[-1] - e_) / scale, quant_den=qd)
+                if len(arr) >= 2 and npts >= 2:
+                    step = (e_ - s) / (npts - 1)
+                    o["steps"] = [MDL.enc(x / step, quant_den=qd) for x in np.diff(arr)]
+            else:
+                o["first"] = MDL.enc(arr[0] / s - 1.0, quant_den=qd)
+                o["last"] = MDL.enc(arr[-1] / e_ - 1.0, quant_den=qd)
+                if len(arr) >= 2 and npts >= 2 and (arr > 0).all():
+                    ratio = (e_ / s) ** (1.0 / (npts - 1))
+                    o["steps"] = [MDL.enc(x / ratio, quant_den=qd) for x in arr[1:] / arr[:-1]]
+            o["increasing"] = bool((np.diff(arr) > 0).all())
+    except (TypeError, ValueError):
+        pass
+    return o
+
+
+def run_grid(c):
+    out = dict(c)
+    if "values" in c:
+        start, stop, n = c["values"]
+    else:
+        start, stop, n = _value_object(c["s"]), _value_object(c["e"]), _count_object(c["n"])
+    out["obs"] = _grid_obs(c["kind"], start, stop, n)
+    out.pop("values", None)
+    return out
+
+
+def _category_object(cls):
+    from dataclasses import dataclass, make_dataclass
+
+    mk = lambda vals: make_dataclass("Cat", [(f"f{i}", type(v), v) for i, v in enumerate(vals)])  # noqa: E731
+    if cls == "plain":
+        class Plain:
+            a = 0
+            b = 1
+        return Plain
+    if cls == "missing":
+        @dataclass
+        class Missing:
+            a: int = 0
+            b: int = None  # type: ignore[assignment]
+        return make_dataclass("Missing2", [("b", int), ("a", int, 0)])
+    if cls == "instance":
+        return mk([0, 1])()
+    return mk({"codes2": [0, 1], "codes3": [0, 1, 2], "codes1": [0], "floats": [0.0, 1.0, 2.0], "bools": [False, True],
+               "gap": [0, 2], "permuted": [1, 0], "dup": [0, 0], "from1": [1, 2], "negative": [-1, 0], "half": [0, 0.5, 1],
+               "nonnum": [0, "a"]}[cls])
+
+
+def run_dgrid(c):
+    import numpy as np
+
+    from lcm import DiscreteGrid
+    from lcm.exceptions import GridInitializationError
+
+    out = dict(c)
+    try:
+        g = DiscreteGrid(_category_object(c["cls"]))
+        arr = np.asarray(g.to_jax(), dtype=np.float64)
+        out["obs"] = {"outcome": "ok", "codes": [MDL.enc(x) for x in arr.ravel()], "cls": "", "msg": ""}
+    except GridInitializationError:
+        out["obs"] = {"outcome": "reject", "codes": [], "cls": "", "msg": ""}
+    except Exception as e:  # noqa: BLE001
+        out["obs"] = {"outcome": "other-error", "codes": [], "cls": type(e).__name__, "msg": str(e)[:150]}
+    return out
+
+
+RUNNERS = {"grid": run_grid, "dgrid": run_dgrid, "funcrep": run_funcrep, "mapcoord": run_mapcoord, "gridcoord": run_gridcoord, "map": run_map, "call": run_call, "scs": run_scs, "scs-mdl": run_scs_mdl, "argmax": run_argmax, "segargmax": run_segargmax, "reduce": run_reduce}
 
 
 def run_unit(c):
